@@ -444,7 +444,7 @@ def mutate(rng, env, kind):
     n, h, b = env[i]
     nodes = list(paths(b))
     if kind == "defmode-cycle":
-        # F20's shape: two structural definitions of different modes tied into one cycle by two aliases
+        # F23's shape: two structural definitions of different modes tied into one cycle by two aliases
         a, c = rng.sample(MODES, 2)
         fa, fc = rng.choice([f for f in MODES if shift_ok("up", f, a)]), rng.choice([f for f in MODES if shift_ok("up", f, c)])
         ch = rng.choice(["plus", "with"])
@@ -597,7 +597,7 @@ def stream(seed, n_envs, thorough=False):
 
 
 FIXED = [
-    ("fix:f20", "defmode-cycle", [("w", None, ("plus", [("l", ("name", "u")), ("r", ("up", "lin", "lin", ("unit",)))])), ("u", None, ("name", "v")),
+    ("fix:f23", "defmode-cycle", [("w", None, ("plus", [("l", ("name", "u")), ("r", ("up", "lin", "lin", ("unit",)))])), ("u", None, ("name", "v")),
                                   ("v", None, ("plus", [("l", ("name", "x")), ("r", ("up", "aff", "aff", ("unit",)))])), ("x", None, ("name", "w"))]),
     ("fix:f15", "head-vs-shift", [("A", "aff", ("up", "mul", "mul", ("unit",)))]),
     ("fix:f3", "dup-label", [("A", None, ("plus", [("a", ("unit",)), ("a", ("lolli", ("unit",), ("unit",)))]))]),
